@@ -106,6 +106,12 @@ def c16_witness(pid, fails, repo):
     res = s_replay.search(repo)
     want = {'C16': None, 'C07': ('sent-before-check', 'restriction-error')}[pid] if pid in ('C16', 'C07') else None
     an = [a for a in res['anomalies'] if want is None or a['aspect'] in want]
+    # a witness must violate the clause it is offered for
+    by_clause = {'no-value-for-failed-exchange': ('value-for-failed-exchange',), 'good-exchange-yields-value': ('error-for-good-exchange',),
+                 'value-is-parsed-reply': ('value',)}
+    clauses = {f.obligation.rsplit('#', 1)[-1] for f in fails}
+    if len(clauses) == 1 and next(iter(clauses)) in by_clause:
+        an = [a for a in an if a['aspect'] in by_clause[next(iter(clauses))]]
     out = {'found': bool(an), 'scripted_exchanges_run_on_real_code': res['exchanges']}
     if an:
         out['input'] = an[0]
@@ -123,8 +129,30 @@ def c07_witness(pid, fails, repo):
     return l3_witness(pid, fails, repo)
 
 
+def c16_extra(pid, tier, seed, runs):
+    """second mechanism of C16: the generated methods forward client, address and credentials (per corpus program, from the C05 pipeline)"""
+    import re as _re
+    res = l3run.run_concern('C05', tier, seed, runs)
+    keep = _re.compile(r'.*(emitted::\w+::new#(posts-to-port-address|keeps-credentials)|wire:\w+::\w+#forwards-client-address-credentials-request)$')
+    res['obligations'] = [o for o in res['obligations'] if keep.match(o)]
+    fs = []
+    for f in res['failures']:
+        if keep.match(f.obligation):
+            f.props = [pid]
+            fs.append(f)
+    res['failures'] = fs
+    res['back_end'] = ' + per-program checks of the emitted service (constructor postcondition by Verus, method bodies as token sequences)'
+    return res
+
+
+def c16_witness_all(pid, fails, repo):
+    if any(f.obligation.startswith(('emitted::', 'wire:')) for f in fails):
+        return l3_witness(pid, fails, repo)
+    return c16_witness(pid, fails, repo)
+
+
 PROPS['C16'] = {
-    'units': [UnitS], 'level': 'proof', 'design_ref': 'DESIGN.md 4.16', 'witness': c16_witness,
+    'units': [UnitS], 'level': 'proof', 'design_ref': 'DESIGN.md 4.16', 'witness': c16_witness_all, 'extra': c16_extra,
     'scope': 'helpers::send_soap_request_using_client and helpers::send_soap_request (the code every generated client method '
              'calls), for all request/response types, urls, credentials, and every outcome of the exchange',
     'level_text': 'Deductive proof (Verus/Z3) over the real text of the two helper functions against contract-only reqwest/yaserde '
@@ -136,7 +164,9 @@ PROPS['C16'] = {
                   'only wire operation and consumes its builder. "At most one POST" additionally rests on a syntactic guard (one '
                   '`.send(` call site, loop-free body; otherwise the check is inconclusive). One extraction rewrite: '
                   '`map_err(SoapError::YaserdeError)` is eta-expanded (additive). Forwarding of client/location/credentials by the '
-                  'generated methods is not covered here. 3xx handling is outside the property.',
+                  'generated methods: per corpus / generated WSDL program the emitted constructor is verified (location == port address, credentials kept) '
+                  'and each method body is compared as a token sequence with the one call of the proved helper (translation validation, not a proof '
+                  'for all schemas). 3xx handling is outside the property.',
     'assumptions': ['reqwest 0.12 behaves as the stand-in contracts say', 'yaserde::ser::to_string / de::from_str are functions of their argument',
                     'Display output is a function of the value (display<T>)'],
 }
